@@ -1,7 +1,7 @@
 (* C05 — Query results equal a direct evaluation of the query over the data (tier T1: one entity, scalar
    fields with defaults / nullable, filters, order_by, first / skip, before / after).
    Property theorems only: statement, exact, Print Assumptions.  Proofs: proofs/C05*.v. *)
-From DV Require Import Eval Sql Run_C05 C05Sort C05Order C05Sql C05P C05Pages C05Codec C05Wit C05Top.
+From DV Require Import Eval Sql Nested Run_C05 C05Sort C05Order C05Sql C05P C05Pages C05Codec C05Wit C05Nested C05Top.
 
 (* (1) the default-aware filter form emitted by get_where_filters,
        CASE WHEN default op v THEN f op v OR f IS NULL ELSE f op v END,
@@ -132,14 +132,35 @@ Example C05_paging_nonvacuous : spec_C05 w_pages_unique (run_C05 w_pages_unique)
 Proof. exact w_pages_unique_ok. Qed.
 Print Assumptions C05_paging_nonvacuous.
 
-(* (7) tier T2, first slice: nested entity / array references (any depth; scalars first in a selection).
-       The statement of the slice is C05_T2_full; it is tied to the code differentially (SQL text, parameter list
-       and JSON of the real engine against Nested.compile2 / print2 / run_nodes, and the oracle JSON = Nested.eval2
-       on every generated nested query); what is machine-checked so far is the limit given to EXISTS sub-queries
-       and the directed cases, among them the one where a parent has fewer children than the nested `skip` *)
-Theorem C05_T2_exists_limit_partial : forall si, exists_unique si = negb (si_array si).
-Proof. exact T2_exists_limit_partial. Qed.
-Print Assumptions C05_T2_exists_limit_partial.
+(* (7) tier T2, first slice: nested entity / array references, any depth (in a selection the scalar fields come
+       first, then the references).  For every nested query, every forest of rows and parameters the parser
+       accepts, outside the open classes taken level by level: binding the single parameter list and running the
+       compiled statement (select-list sub-queries and EXISTS sub-queries evaluated separately, each with the
+       limit the code gives it) is the reference evaluation, in which a row is returned iff every selected
+       reference that is not nullable has a non-empty nested result under the nested query's own
+       filters / order / first / skip *)
+Theorem C05_T2_outside_known : forall Q nodes ps,
+  q2_ok Q ps = true -> known_nested Q nodes ps = [] -> run_query2 Q nodes ps = Some (eval2 Q ps nodes).
+Proof. exact T2_outside_known. Qed.
+Print Assumptions C05_T2_outside_known.
+
+Theorem C05_T2_spec : forall Q nodes ps,
+  q2_ok Q ps = true -> known_C05 (CNested Q nodes ps) = [] ->
+  spec_C05 (CNested Q nodes ps) (run_C05 (CNested Q nodes ps)) = true.
+Proof. exact T2_spec. Qed.
+Print Assumptions C05_T2_spec.
+
+(*     EXISTS <=> the nested result under the same limits is not empty, on the compiled statement *)
+Theorem C05_T2_exists_same_limits : forall ps subs vo vo' cs,
+  chain_ex F_ex subs vo vo' cs ->
+  forall vf binds nd, pfx vo' vf -> bind vf ps = Some binds ->
+  (forall p, In p subs -> q2_ok (snd p) ps = true /\ known_nested (snd p) (children nd (fst p)) ps = []) ->
+  forallb (fun sc : subinfo * cq2 => negb (is_nil (run_nodes (snd sc) binds (children nd (fst sc))))) cs =
+  forallb (fun p : subinfo * q2 => si_nullable (fst p) || negb (is_nil (eval_nodes (snd p) ps (negb (si_array (fst p))) (children nd (fst p))))) subs.
+Proof. exact T2_exists_same_limits. Qed.
+Print Assumptions C05_T2_exists_same_limits.
+
+(*     directed cases, among them the one where a parent has fewer children than the nested `skip` *)
 Example C05_T2_exists_skip_ok : spec_C05 w_nested_exists_skip (run_C05 w_nested_exists_skip) = true /\ known_C05 w_nested_exists_skip = [] /\ wf_C05 w_nested_exists_skip = [1; 1].
 Proof. exact w_nested_exists_skip_ok. Qed.
 Print Assumptions C05_T2_exists_skip_ok.
